@@ -1,6 +1,6 @@
 //! C17 — malformed LZMA2 framing is rejected (E5: every framing field x boundary-violating value at every chunk).
 use super::c02::{chunk_kinds, obs_of};
-use crate::cases::{dec_plain, Case, Fmt, Hex, Opts, Rd, Sk};
+use crate::cases::{RawH, RawOp, dec_plain, Case, Fmt, Hex, Opts, Rd, Sk};
 use crate::common::{brief_bytes, Ctx, Tier};
 use crate::explore::par_for;
 use crate::refmodel::enc::Sym;
@@ -330,6 +330,27 @@ pub fn run(tier: Tier) -> i32 {
                     ctx.traces.fetch_add(1, Ordering::Relaxed);
                     if !o.v.is_err() {
                         ctx.violation(&case, &format!("base [{}], {}: malformed ({}) => Err also when read through {:?}", chunks_str(cs), what, reason, rd), &o, Some(&format!("C17:{}", listed.iter().find(|k| reason.contains(*k)).unwrap())));
+                        bad = true;
+                        break;
+                    }
+                }
+                if bad {
+                    continue;
+                }
+            }
+            // ... nor on what the decoder object has seen before: the raw decoder decodes the valid base, is reset, and is given
+            // the malformed stream twice (with a reset in between) - a decoder that caches anything about properties or framing
+            // across reset() must still refuse it both times
+            if what.contains("property byte") || what.contains("control byte") || what.contains("illegal properties") {
+                let ops = vec![RawOp::Dec(Hex(w.bytes.clone())), RawOp::Reset, RawOp::Dec(Hex(m.clone())), RawOp::Reset, RawOp::Dec(Hex(m.clone()))];
+                let mut h = RawH::new_lzma2();
+                let mut bad = false;
+                for (k, op) in ops.iter().enumerate() {
+                    let r = h.apply(op);
+                    ctx.eval(1);
+                    if (k == 2 || k == 4) && !r.v.is_err() {
+                        let case = Case::RawLzma2 { ops: ops[..=k].to_vec() };
+                        ctx.violation(&case, &format!("base [{}], {}: malformed ({}) => Err from a raw Lzma2Decoder that decoded the valid base before and was reset (attempt {})", chunks_str(cs), what, reason, k / 2), &obs_of(r.v, r.out, r.consumed), Some(&format!("C17:{}", listed.iter().find(|k| reason.contains(*k)).unwrap())));
                         bad = true;
                         break;
                     }
